@@ -1,5 +1,5 @@
 \* block-transactions migration, repaired design (FixH15, FixH20), exhaustive: 6 blocks with 0..2
-\* transactions in EVERY placement (729 initial states), ranges of 2, 2 ingestors, <= 2 crashes,
+\* transactions in EVERY placement (729 initial states), ranges of 2, 2 ingestors, <= 2 crashes, <= 1 cancellation,
 \* batches may be handed over early
 CONSTANTS
   NBlocks = 6
@@ -7,6 +7,7 @@ CONSTANTS
   I = 2
   MaxTx = 2
   MaxCrashes = 2
+  MaxCancels = 1
   EarlyFlush = TRUE
   FixH15 = TRUE
   FixH20 = TRUE
